@@ -1,1 +1,278 @@
-static void run_e2e(std::istringstream& in) {}
+// End-to-end cases of the C19 harness (included by c19_partition.cpp after
+// subdivision.cpp, with private members opened).
+//   E id shape seed pre op a b
+//     shape: 0 cube 1 tetrahedron 2 hexagonal prism 3 L-shape (Boolean) 4 sphere(8)
+//            5 cube with face-corner normals as properties (discontinuous at edges)
+//            6 cube (+|-|^) rotated cube (Boolean result, generic position)
+//            7 cube with a smooth position-valued property
+//     pre:   0 none   1 SmoothOut(a-dependent)   2 Smooth(MeshGL)   (tangents)
+//     op:    0 Refine(a)  1 RefineToLength(b/1000)  2 RefineToTolerance(b/100000)
+//            3 Impl::Refine(hash divisions < a, keepInterior = b&1)
+//            4 Refine(a) then Simplify(t)   5 Refine(a) then SetTolerance(t)   (t from b)
+//            6 SetTolerance up then down (b selects)
+// Output: one line "E id k=v ..." of integers / booleans / bit patterns only.
+struct MeshFacts {
+  long nv = 0, nt = 0, nprop = 0, npropvert = 0;
+  int status = 0;
+  bool referenced = true, manifold = true, finite = true;
+  long chi = 0, unref = 0;
+  double vol = 0, area = 0, tol = 0, eps = 0;
+  std::vector<std::array<uint64_t, 3>> pos;  // sorted bit patterns
+};
+
+static std::shared_ptr<const Manifold::Impl> impl_of(const Manifold& m) { return m.GetCsgLeafNode().GetImpl(); }
+
+static MeshFacts facts(const Manifold& m) {
+  MeshFacts f;
+  f.status = (int)m.Status();
+  auto impl = impl_of(m);
+  f.nv = impl->NumVert();
+  f.nt = impl->NumTri();
+  f.nprop = impl->NumProp();
+  f.npropvert = impl->NumPropVert();
+  f.tol = impl->tolerance_;
+  f.eps = impl->epsilon_;
+  const size_t nh = impl->halfedge_.size();
+  std::vector<char> seen(f.nv, 0);
+  std::vector<std::pair<int, int>> de;
+  de.reserve(nh);
+  for (size_t h = 0; h < nh; ++h) {
+    const int s = impl->halfedge_.Start(h), e = impl->halfedge_.End(h);
+    if (s < 0 || s >= f.nv || e < 0 || e >= f.nv) { f.manifold = false; continue; }
+    seen[s] = 1;
+    de.push_back({s, e});
+    if (s == e) f.manifold = false;
+  }
+  for (long v = 0; v < f.nv; ++v)
+    if (!seen[v]) { f.referenced = false; ++f.unref; }
+  std::sort(de.begin(), de.end());
+  for (size_t i = 0; i + 1 < de.size(); ++i)
+    if (de[i] == de[i + 1]) f.manifold = false;
+  for (auto& e : de)
+    if (!std::binary_search(de.begin(), de.end(), std::make_pair(e.second, e.first))) f.manifold = false;
+  f.chi = f.nv - (long)(nh / 2) + f.nt;
+  for (long v = 0; v < f.nv; ++v) {
+    const vec3 p = impl->vertPos_[v];
+    if (!std::isfinite(p.x) || !std::isfinite(p.y) || !std::isfinite(p.z)) f.finite = false;
+    f.pos.push_back({bits(p.x + 0.0), bits(p.y + 0.0), bits(p.z + 0.0)});  // -0.0 and +0.0 are the same position
+  }
+  std::sort(f.pos.begin(), f.pos.end());
+  f.vol = m.Volume();
+  f.area = m.SurfaceArea();
+  return f;
+}
+
+// is the multiset a contained in the multiset b (both sorted)?
+static bool sub_multiset(const std::vector<std::array<uint64_t, 3>>& a, const std::vector<std::array<uint64_t, 3>>& b) {
+  return std::includes(b.begin(), b.end(), a.begin(), a.end());
+}
+static bool sub_set(const std::vector<std::array<uint64_t, 3>>& a, const std::vector<std::array<uint64_t, 3>>& b) {
+  for (auto& x : a)
+    if (!std::binary_search(b.begin(), b.end(), x)) return false;
+  return true;
+}
+// largest distance (in units of 2^-40 * scale) from a point of a to the nearest point of b; brute force
+static long max_gap(const Manifold& a, const Manifold& b, double scale) {
+  auto ia = impl_of(a), ib = impl_of(b);
+  double worst = 0;
+  for (size_t i = 0; i < ia->NumVert(); ++i) {
+    double best = 1e300;
+    for (size_t j = 0; j < ib->NumVert(); ++j) {
+      const vec3 d = ia->vertPos_[i] - ib->vertPos_[j];
+      best = std::min(best, la::dot(d, d));
+    }
+    worst = std::max(worst, best);
+  }
+  return (long)std::min(1e15, std::ceil(std::sqrt(worst) / scale * 1099511627776.0));
+}
+
+// closest point on triangle (a,b,c) to p (Ericson, Real-Time Collision Detection 5.1.5)
+static vec3 closest_on_tri(vec3 p, vec3 a, vec3 b, vec3 c) {
+  const vec3 ab = b - a, ac = c - a, ap = p - a;
+  const double d1 = la::dot(ab, ap), d2 = la::dot(ac, ap);
+  if (d1 <= 0 && d2 <= 0) return a;
+  const vec3 bp = p - b;
+  const double d3 = la::dot(ab, bp), d4 = la::dot(ac, bp);
+  if (d3 >= 0 && d4 <= d3) return b;
+  const double vc = d1 * d4 - d3 * d2;
+  if (vc <= 0 && d1 >= 0 && d3 <= 0) return a + ab * (d1 / (d1 - d3));
+  const vec3 cp = p - c;
+  const double d5 = la::dot(ab, cp), d6 = la::dot(ac, cp);
+  if (d6 >= 0 && d5 <= d6) return c;
+  const double vb = d5 * d2 - d1 * d6;
+  if (vb <= 0 && d2 >= 0 && d6 <= 0) return a + ac * (d2 / (d2 - d6));
+  const double va = d3 * d6 - d5 * d4;
+  if (va <= 0 && (d4 - d3) >= 0 && (d5 - d6) >= 0) return b + (c - b) * ((d4 - d3) / ((d4 - d3) + (d5 - d6)));
+  const double denom = 1.0 / (va + vb + vc);
+  return a + ab * (vb * denom) + ac * (vc * denom);
+}
+// largest distance (units of 2^-40) from a vertex of a to the surface of b; brute force
+static long max_surf_gap(const Manifold& a, const Manifold& b) {
+  auto ia = impl_of(a), ib = impl_of(b);
+  double worst = 0;
+  for (size_t i = 0; i < ia->NumVert(); ++i) {
+    double best = 1e300;
+    const vec3 p = ia->vertPos_[i];
+    for (size_t t = 0; t < ib->NumTri(); ++t) {
+      const vec3 q = closest_on_tri(p, ib->vertPos_[ib->halfedge_.Start(3 * t)], ib->vertPos_[ib->halfedge_.Start(3 * t + 1)],
+                                    ib->vertPos_[ib->halfedge_.Start(3 * t + 2)]);
+      best = std::min(best, la::dot(p - q, p - q));
+    }
+    worst = std::max(worst, best);
+  }
+  if (!(worst < 1e300)) return 1000000000000000L;
+  return (long)std::min(1e15, std::ceil(std::sqrt(worst) * 1099511627776.0));
+}
+
+static bool close_rel(double a, double b, double rel) {
+  return std::fabs(a - b) <= rel * std::max(std::fabs(a), std::fabs(b)) + 1e-300;
+}
+
+struct Rng {
+  std::mt19937_64 g;
+  explicit Rng(uint64_t s) : g(s) {}
+  double u() { return (double)(g() >> 11) * (1.0 / 9007199254740992.0); }
+  double r(double a, double b) { return a + (b - a) * u(); }
+};
+
+static Manifold make_shape(int shape, Rng& rng) {
+  Manifold m;
+  switch (shape) {
+    case 0: m = Manifold::Cube(vec3(rng.r(0.5, 2), rng.r(0.5, 2), rng.r(0.5, 2)), true); break;
+    case 1: m = Manifold::Tetrahedron(); break;
+    case 2: m = Manifold::Cylinder(rng.r(0.5, 2), 1, 1, 6); break;
+    case 3: m = Manifold::Cube(vec3(2, 2, 1)) - Manifold::Cube(vec3(1, 1, 2)).Translate(vec3(1, 1, -0.5)); break;
+    case 4: m = Manifold::Sphere(1, 8); break;
+    case 5: m = Manifold::Cube(vec3(1, 2, 1.5), true).CalculateNormals(0, 60); break;
+    case 6: {
+      Manifold a = Manifold::Cube(vec3(1.0), true);
+      Manifold b = Manifold::Cube(vec3(1.0), true)
+                       .Rotate(rng.r(0, 90), rng.r(0, 90), rng.r(0, 90))
+                       .Translate(vec3(rng.r(-0.5, 0.5), rng.r(-0.5, 0.5), rng.r(-0.5, 0.5)));
+      const int op = (int)(rng.u() * 3);
+      m = op == 0 ? a + b : op == 1 ? a - b : a ^ b;
+      return m;  // F6's family: no further transform
+    }
+    default:
+      m = Manifold::Cube(vec3(1, 1, 1), true).SetProperties(3, [](double* p, vec3 pos, const double*) {
+        p[0] = pos.x + 2 * pos.y; p[1] = pos.z; p[2] = 1;
+      });
+      break;
+  }
+  if (rng.u() < 0.7)
+    m = m.Rotate(rng.r(0, 360), rng.r(0, 360), rng.r(0, 360)).Translate(vec3(rng.r(-3, 3), rng.r(-3, 3), rng.r(-3, 3)));
+  return m;
+}
+
+static int hash_div(vec3 v, int modulus, uint64_t salt) {
+  // symmetric in the sign of the edge vector; depends only on bit patterns
+  uint64_t h = salt;
+  for (int i = 0; i < 3; ++i) h = (h ^ bits(std::fabs(v[i]))) * 0x9E3779B97F4A7C15ull + (h >> 29);
+  return (int)((h >> 33) % (uint64_t)modulus);
+}
+
+static void put(std::ostringstream& o, const char* k, long v) { o << " " << k << "=" << v; }
+static void putb(std::ostringstream& o, const char* k, double d) {
+  char buf[40];
+  snprintf(buf, sizeof buf, " %s=%016llx", k, (unsigned long long)bits(d));
+  o << buf;
+}
+
+static void run_e2e(std::istringstream& in) {
+  std::string id;
+  int shape, pre, op;
+  uint64_t seed;
+  long a, b;
+  in >> id >> shape >> seed >> pre >> op >> a >> b;
+  Rng rng(seed);
+  std::ostringstream o;
+  o << "E " << id;
+  Manifold base = make_shape(shape, rng);
+  if (pre == 1) base = base.SmoothOut(a % 2 ? 52.5 : 30.0, (a / 2) % 2 ? 0.0 : 0.3);
+  if (pre == 2) {
+    MeshGL mg = base.GetMeshGL();
+    MeshGL plain;
+    plain.numProp = 3;
+    for (size_t i = 0; i < mg.NumVert(); ++i)
+      for (int k = 0; k < 3; ++k) plain.vertProperties.push_back(mg.vertProperties[i * mg.numProp + k]);
+    plain.triVerts = mg.triVerts;
+    plain.mergeFromVert = mg.mergeFromVert;
+    plain.mergeToVert = mg.mergeToVert;
+    base = Manifold::Smooth(plain);
+  }
+  MeshFacts f0 = facts(base);
+  put(o, "st0", f0.status); put(o, "nt0", f0.nt); put(o, "nv0", f0.nv); put(o, "np0", f0.nprop);
+  put(o, "ref0", f0.referenced); put(o, "man0", f0.manifold); put(o, "chi0", f0.chi);
+  const bool tang = impl_of(base)->halfedgeTangent_.size() > 0;
+  put(o, "tang", tang);
+  Manifold res;
+  if (op == 0) res = base.Refine((int)a);
+  else if (op == 1) res = base.RefineToLength(b / 1000.0);
+  else if (op == 2) res = base.RefineToTolerance(b / 100000.0);
+  else if (op == 3) {
+    auto src = impl_of(base);
+    auto p = std::make_shared<Manifold::Impl>(*src);
+    const int modulus = (int)a;
+    const uint64_t salt = seed * 7 + 1;
+    // the division triples Subdivide will ask Partition for (keepInterior = false only)
+    std::map<std::array<int, 3>, long> hist;
+    for (size_t t = 0; t < src->NumTri(); ++t) {
+      std::array<int, 3> d;
+      for (int i = 0; i < 3; ++i) {
+        const vec3 v = src->vertPos_[src->halfedge_.Start(3 * t + i)] - src->vertPos_[src->halfedge_.End(3 * t + i)];
+        d[i] = hash_div(v, modulus, salt) + 1;
+      }
+      std::sort(d.begin(), d.end(), std::greater<int>());
+      hist[d]++;
+    }
+    p->Refine([modulus, salt](vec3 e, vec4, vec4) { return hash_div(e, modulus, salt); }, (b & 1) != 0, nullptr);
+    res = Manifold(p);
+    o << " div=";
+    bool first = true;
+    for (auto& kv : hist) {
+      o << (first ? "" : ",") << kv.first[0] << ":" << kv.first[1] << ":" << kv.first[2] << ":" << kv.second;
+      first = false;
+    }
+  } else if (op == 4 || op == 5) {
+    Manifold fine = base.Refine((int)a);
+    MeshFacts ff = facts(fine);
+    put(o, "ntf", ff.nt); put(o, "nvf", ff.nv);
+    // feature size of shapes 0,2,3 is >= 0.5; tolerances well below it
+    const double t = (b % 4 == 0) ? 0.0 : (b % 4 == 1) ? 1e-9 : (b % 4 == 2) ? 1e-4 : 0.01;
+    res = op == 4 ? fine.Simplify(t) : fine.SetTolerance(t);
+    MeshFacts fr = facts(res);
+    put(o, "subset", sub_set(fr.pos, ff.pos));
+    put(o, "gap40", sub_set(fr.pos, ff.pos) ? 0 : max_gap(res, fine, 1.0));
+    put(o, "corner40", max_gap(base, res, 1.0));
+    put(o, "orig_kept", sub_multiset(f0.pos, fr.pos));
+    putb(o, "t", t); putb(o, "tolf", ff.tol); putb(o, "epsf", ff.eps);
+    put(o, "tol_is_max", bits(fr.tol) == bits(std::max(t, ff.eps)) || (op == 4 && bits(fr.tol) == bits(ff.tol)));
+    put(o, "tol_expected_kind", op == 4 ? 0 : 1);
+    put(o, "tol_ge_eps", fr.tol >= fr.eps);
+  } else if (op == 6) {
+    // raise the tolerance, then lower it: below epsilon, and between epsilon and the raised value
+    const double up = 0.01, down = (b % 3 == 0) ? 0.0 : (b % 3 == 1) ? 1e-13 * (1 + (double)(b % 7)) : 1e-3;
+    Manifold r1 = base.SetTolerance(up);
+    MeshFacts f1 = facts(r1);
+    res = r1.SetTolerance(down);
+    MeshFacts fr = facts(res);
+    putb(o, "t", down); putb(o, "tol1", f1.tol); putb(o, "eps1", f1.eps);
+    put(o, "tol1_is_max", bits(f1.tol) == bits(std::max(up, f0.eps)));
+    put(o, "tol_is_max", bits(fr.tol) == bits(std::max(down, f1.eps)));
+    put(o, "tol_ge_eps", fr.tol >= fr.eps && f1.tol >= f1.eps);
+    put(o, "lowered", down < f1.tol);
+  }
+  MeshFacts f1 = facts(res);
+  put(o, "st1", f1.status); put(o, "nt1", f1.nt); put(o, "nv1", f1.nv); put(o, "np1", f1.nprop);
+  put(o, "ref1", f1.referenced); put(o, "unref1", f1.unref); put(o, "man1", f1.manifold); put(o, "chi1", f1.chi);
+  put(o, "finite1", f1.finite);
+  put(o, "kept", sub_multiset(f0.pos, f1.pos));
+  put(o, "surf40", tang || f1.nv > 20000 ? -1 : max_surf_gap(res, base));
+  put(o, "vol_same", close_rel(f0.vol, f1.vol, 1e-10));
+  put(o, "area_same", close_rel(f0.area, f1.area, 1e-10));
+  put(o, "vol_same9", close_rel(f0.vol, f1.vol, 1e-7));
+  put(o, "area_same9", close_rel(f0.area, f1.area, 1e-7));
+  putb(o, "vol0", f0.vol); putb(o, "vol1", f1.vol); putb(o, "area0", f0.area); putb(o, "area1", f1.area);
+  putb(o, "tol", f1.tol); putb(o, "eps", f1.eps);
+  puts(o.str().c_str());
+}
